@@ -884,7 +884,9 @@ func (vx *Vaxis) handleSequence(seq ansi.Sequence) {
 					return
 				}
 				switch seq.Parameters[1][0] {
-				case 1, 2:
+				case 1, 2, 3:
+					// set, reset or permanently set: the terminal
+					// knows the mode
 					vx.PostEventBlocking(unicodeCoreCap{})
 				}
 			case 2031:
